@@ -1,7 +1,7 @@
 /-
 C05 helper lemmas, part f: the sort comparator.  A three-way comparison that is antisymmetric ("flip") and
-whose "not greater" is transitive lifts lexicographically to a strict weak order; under the separation guard
-`compareValues` is such a comparison (it factors through an exact key).  Core Lean only.
+whose "not greater" is transitive lifts lexicographically to a strict weak order; `compareValues` is such a
+comparison (it factors through an exact key).  Core Lean only.
 -/
 import SigModel.Model.SortCmp
 set_option linter.unusedSimpArgs false
@@ -71,6 +71,32 @@ theorem ratLt_strictTotal : StrictTotal (fun (a b : Rat) => decide (a < b)) wher
     simp only [decide_eq_true_eq]
     grind
 
+/-- the place of a float64 in the sort order: -Inf < finite < +Inf < NaN -/
+def fltClass : Flt → Nat
+  | .ninf => 0
+  | .fin _ => 1
+  | .pinf => 2
+  | .nan => 3
+
+/-- the total order `compareFloat` implements -/
+def fltLt : Flt → Flt → Bool
+  | .fin a, .fin b => decide (a < b)
+  | a, b => decide (fltClass a < fltClass b)
+
+theorem fltLt_strictTotal : StrictTotal fltLt where
+  irrefl := by intro a; cases a <;> simp [fltLt, fltClass, Rat.lt_irrefl]
+  trans := by
+    intro a b c h1 h2
+    cases a <;> cases b <;> cases c <;> simp [fltLt, fltClass] at h1 h2 ⊢
+    grind
+  total := by
+    intro a b hab
+    cases a <;> cases b <;> simp [fltLt, fltClass] at hab ⊢
+    grind
+
+theorem compareFloat_eq_c3 (a b : Flt) : compareFloat a b = c3 fltLt a b := by
+  cases a <;> cases b <;> simp [compareFloat, c3, Flt.eq, Flt.lt, Flt.isNaN, fltLt, fltClass]
+
 theorem bytesLt_irrefl : ∀ a, bytesLt a a = false
   | [] => rfl
   | x :: xs => by simp [bytesLt, bytesLt_irrefl xs]
@@ -127,19 +153,20 @@ theorem bytesLt_strictTotal : StrictTotal bytesLt := ⟨bytesLt_irrefl, bytesLt_
 /-! ### the exact key -/
 
 inductive K where
-  | num (q : Rat)
+  | num (f : Flt)
   | str (b : List Nat)
   | other
 deriving DecidableEq
 
 def flipIf (asc : Bool) (c : Cmp) : Cmp := if asc then c else c.flip
 
-/-- the comparison `compareValues` is meant to be: exact on numbers, byte-wise on strings, rank other last -/
+/-- the comparison `compareValues` implements: the float64 order on numbers (NaN last), byte-wise on strings,
+rank other last in both directions -/
 def kcmp (asc : Bool) : K → K → Cmp
   | .other, .other => .equal
   | .other, _ => .greater
   | _, .other => .less
-  | .num p, .num q => flipIf asc (c3 (fun a b => decide (a < b)) p q)
+  | .num p, .num q => flipIf asc (c3 fltLt p q)
   | .num _, .str _ => flipIf asc .less
   | .str _, .num _ => flipIf asc .greater
   | .str s, .str t => flipIf asc (c3 bytesLt s t)
@@ -152,7 +179,7 @@ theorem flipIf_flip (asc : Bool) (c : Cmp) : (flipIf asc c).flip = flipIf asc c.
 
 theorem kcmp_flip (asc : Bool) (x y : K) : kcmp asc y x = (kcmp asc x y).flip := by
   cases x <;> cases y <;> simp only [kcmp, flipIf_flip, flip_less, flip_greater, flip_equal]
-  · rename_i p q; rw [c3_flip ratLt_strictTotal p q]
+  · rename_i p q; rw [c3_flip fltLt_strictTotal p q]
   · rename_i s t; rw [c3_flip bytesLt_strictTotal s t]
 
 theorem c3_ge_trans {α : Type} [DecidableEq α] {lt : α → α → Bool} (h : StrictTotal lt) (a b c : α)
@@ -168,9 +195,9 @@ theorem kcmp_le_trans (asc : Bool) (x y z : K) (h1 : kcmp asc x y ≠ .greater) 
   cases x <;> cases y <;> cases z <;> cases asc <;>
     simp [kcmp] at h1 h2 ⊢
   all_goals first
-    | exact c3_le_trans ratLt_strictTotal _ _ _ h1 h2
+    | exact c3_le_trans fltLt_strictTotal _ _ _ h1 h2
     | exact c3_le_trans bytesLt_strictTotal _ _ _ h1 h2
-    | exact c3_ge_trans ratLt_strictTotal _ _ _ h1 h2
+    | exact c3_ge_trans fltLt_strictTotal _ _ _ h1 h2
     | exact c3_ge_trans bytesLt_strictTotal _ _ _ h1 h2
 
 /-! ### lexicographic lift -/
